@@ -67,9 +67,14 @@ def compare(ctx, infr, inam, edges, mode, case, tag):
     onedge = np.isin(infr64, edges)
     ctx.case(digest(infr, inam, edges, mode), bool(inr.any() and ((~inr).any() or onedge.any())))
     f0, a0 = infr.copy(), inam.copy()
-    dense = SP.hilberthuang(infr, inam, edges, mode=mode)
-    sp = SP.hilberthuang(infr, inam, edges, mode=mode, return_sparse=True)
-    one = SP.hilberthuang_1d(infr, inam, edges, mode=mode)
+    # the bin edges as an array, or (every fifth case) as the list / tuple a caller may equally well write down
+    form = ctx.evaluations % 5
+    e_arg = edges if form > 1 else (list(map(float, edges)) if form == 0 else tuple(map(float, edges)))
+    if form <= 1:
+        ctx.count('edges_passed_as_' + ('list' if form == 0 else 'tuple'))
+    dense = SP.hilberthuang(infr, inam, e_arg, mode=mode)
+    sp = SP.hilberthuang(infr, inam, e_arg, mode=mode, return_sparse=True)
+    one = SP.hilberthuang_1d(infr, inam, e_arg, mode=mode)
     ctx.count('spectra_compared')
     if dense.shape != H.shape:
         ctx.violation('hht-shape', 'hilberthuang returned shape %s, expected [bins x time] = %s' % (dense.shape, H.shape), case)
